@@ -43,6 +43,18 @@ CLAIMED = {
         "Trusts spec/pdf_operators.json. Known findings C16-R6 (current colour spaces not part of the q/Q snapshot) are recorded.",
         "DESIGN.md §5 C16",
     ),
+    "C08": (
+        "def-use flow of the partitions in LTLayoutContainer.analyze, typestate abstract interpretation of group_objects over all feasible paths of its loop body (three-valued branch evaluation), min/max normal form of the expanding add with a who-may-bypass inventory, must-pass-through of the line break, sort-key normal forms, ordering of numbering",
+        "Decides structural necessary conditions of content conservation: every partition reaches the final child list, every glyph is added to exactly one line exactly once and every line is yielded exactly once on all paths of the grouping loop, bounding boxes grow by min/max and only LTAnno bypasses that, every line gets its break and every line/box is analysed, lines are sorted top-to-bottom (right-to-left), boxes are numbered on both ordering paths, container text is the in-order concatenation. Termination of the heap loop of group_textboxes and that group_textlines never drops a non-empty line are arithmetic/history-level and not decided.",
+        "Trusts CPython ast; the typestate abstraction tracks only `line` (none/some) and the add/yield events.",
+        "DESIGN.md §5 C08",
+    ),
+    "C09": (
+        "normalised predicate extraction (comparison direction, commutative operands, polynomial difference) compared with the documented definitions, mirror-image (x<->y) sibling agreement of the horizontal/vertical variants, polynomial normal form of the ordering keys, dimension (homogeneity) analysis of every comparison / sum / min / max / sort key in the layout code",
+        "Decides that the grouping predicates are the documented ones (strictness, min vs max, which operand), that vertical variants mirror the horizontal ones, that ordering keys are top-to-bottom/left-to-right, and that every decision in the layout code compares quantities of equal degree in length with dimensionless parameters - which, with exact scaling by powers of two, is the argument for scale invariance. The grouping outcome on concrete arrangements (closure of the neighbour relation, reading order of real documents) is not decided.",
+        "Assumes exact float scaling by powers of two, coordinates below the INF sentinels, and that Plane.gridsize only affects bucketing (C20).",
+        "DESIGN.md §5 C09",
+    ),
     "C10": (
         "who-may-call inventory of decryption sites with branch placement, CFG ordering checks, must-pass-through of PKCS#7 removal, table check of algorithm constants / round counts / slice lengths / update order / registry against ISO 32000 7.6, canonical comparison of the unsigned conversion",
         "Decides structural necessary conditions of decryption: it is applied at exactly the reviewed sites (direct objects only, streams once before filters, xref data before any handler exists), AES object data is unpadded while key unwrapping is not, the algorithm constants and orders are the standard's, a failed authentication can only end in PDFPasswordIncorrect, and /P 0 converts to 0. That the derived keys decrypt real files (cryptographic equality) and that every wrong password is rejected are not decided.",
